@@ -563,7 +563,7 @@ Example partial_parsers_guards_met :
   /\ match log_select ex2_query ex_ctx with
      | Some sel => option_map (map row_out) (eval no_re no_float ex2_json ex2_hash tie_id (to_sqldb ex_ctx ex2_db) sel)
      | None => None end
-     = Some [Some {| o_fp := 102; o_labels := [("lvl", ""); ("m", "ok")]; o_line := ex2_line; o_ts := 1700000000000000005 |}].
+     = Some [Some {| o_fp := 102; o_labels := [("lvl", "info"); ("m", "ok")]; o_line := ex2_line; o_ts := 1700000000000000005 |}].
 Proof.
   split; [reflexivity|]. split.
   { intros s Hs. cbn in Hs. destruct Hs as [<-|[<-|[<-|[<-|[<-|[<-|[]]]]]]]; cbn; try tauto. split; [intros He; discriminate|exact I]. }
